@@ -1,10 +1,4 @@
-mod fw;
-mod gen;
-mod lspc;
-mod props;
-mod refm;
-mod sched;
-mod ws;
+use vcheck::{fw, gen, lspc, props, ws};
 
 use std::path::Path;
 
